@@ -107,6 +107,7 @@ type RunResult struct {
 
 type e1 struct {
 	p                *Program
+	crossCas         bool // the current with-meta write carries the CAS of the same key in another collection
 	stmtFiredBefore  int64
 	prevTomb         bool // the step being judged started from a tombstone
 	w                *World
@@ -208,6 +209,7 @@ func retag(tags []string, op *Op, family string, what string) []string {
 func (e *e1) key(coll int, key string) string { return fmt.Sprintf("%d/%s", coll, key) }
 
 func (e *e1) resolveCas(op *Op, d Doc) {
+	e.crossCas = false
 	if op.ExpKind == 3 {
 		if d.HasBody && d.Exp != 0 && !d.ExpAny {
 			op.ExpArg = d.Exp
@@ -247,7 +249,19 @@ func (e *e1) resolveCas(op *Op, d Doc) {
 			for oc, odocs := range e.docs {
 				if od, ok := odocs[op.Key]; ok && oc != op.Coll && od.Cas != 0 {
 					op.NewCas = od.Cas
+					e.crossCas = true
 					e.probe("withmeta.same-cas-other-collection")
+					break
+				}
+			}
+		}
+		if op.Amt%11 == 7 && op.Handle != 9 && e.p.Prop == "C02" {
+			// ... or exactly the CAS ANOTHER key of the same collection carries right now (only in the
+			// runs of C02, which start no backfill: two documents with one CAS have no defined order there)
+			for _, ok := range keysOf(e.docs[op.Coll], "") {
+				if od := e.docs[op.Coll][ok]; ok != op.Key && od.Exists && od.Cas != 0 {
+					op.NewCas = od.Cas
+					e.probe("withmeta.same-cas-as-other-key")
 					break
 				}
 			}
@@ -442,6 +456,8 @@ func (e *e1) doOp(op *Op) *Violation {
 		return e.doRecreateColl(op)
 	case "EnsureColl":
 		return e.doEnsureColl(op)
+	case "CreateIndex":
+		return e.doCreateIndex(op)
 	case "HLCBurst":
 		return e.doHLCBurst(op)
 	}
@@ -491,6 +507,11 @@ func (e *e1) doOp(op *Op) *Violation {
 	}
 	e.logf("#%d %s -> %s   [%s -> %s]", e.step, op, resForLog(op, r), d.State(), ifelseS(out.OK, out.Next.State(), "VIOLATION"))
 	if !out.OK {
+		if e.crossCas && r.Err != "" {
+			// the call carried the CAS the same key has in another collection, and was refused: what another
+			// collection holds must not matter
+			out.Tags = uniq(append(out.Tags, "C11"))
+		}
 		v := e.violate(out.Tags, "outcome:"+op.Kind, "step %d %s on %s: %s", e.step, op, d, out.Why)
 		v.Detail = r.ErrText
 		e.skipLive()
@@ -782,6 +803,14 @@ func (e *e1) readBack(op *Op, family string, failed bool) *Violation {
 	ds, bucket, docs := e.target(op)
 	if why, tags, what := e.readKey(ds, bucket, docs, op.Coll, op.Key); why != "" {
 		tags = retag(tags, op, family, what)
+		if d := docs[op.Key]; family == "delete" && d.Exists && !d.HasBody {
+			// a deletion must leave a tombstone that every observer sees as such (C05), and that keeps
+			// "the key exists" true for the insert-style writes that ask (C06)
+			tags = uniq(append(tags, "C05", "C06"))
+		} else if d.Exists && !d.HasBody && !failed && what == "body" {
+			// the call made (or left) a tombstone, and an observer still finds a body
+			tags = uniq(append(tags, "C05"))
+		}
 		oracle := "readback." + what
 		if failed {
 			oracle = "readback.after-error." + what
